@@ -409,6 +409,15 @@ func (c *Conn) ServerClose() {
 	c.mu.Unlock()
 }
 
+// ServerResetAfterData resets the connection but lets the client read the
+// bytes already delivered first (exactly-k-bytes-then-RST).
+func (c *Conn) ServerResetAfterData() {
+	c.mu.Lock()
+	c.inRST = true
+	c.wakeReaders()
+	c.mu.Unlock()
+}
+
 // ServerReset resets the connection: undelivered bytes are lost.
 func (c *Conn) ServerReset() {
 	c.mu.Lock()
